@@ -16,6 +16,12 @@ func dumpModel(w *World, what string) {
 					fmt.Println("  FAIL", o.Rule, o.Instance, o.Detail)
 				}
 			}
+		case "kvm":
+			if vocab[k].Order != "free" {
+				continue
+			}
+			ks := p.kvmSem(p.parseModelOf())
+			fmt.Printf("%s decided=%v why=%q labels=%v\n  dup=%v %s\n  step=%v %s\n  unk=%v/%v %s\n  tail=%v %s\n  nopanic=%v %s\n", k, ks.Decided, ks.Why, ks.Labels, ks.DupOK, ks.DupWhy, ks.StepOK, ks.StepWhy, ks.UnkNonNil, ks.UnkTyped, ks.UnkWhy, ks.TailOK, ks.TailWhy, ks.NoPanic, ks.PanicWhy)
 		case "get":
 			gm := p.GetModel()
 			for _, a := range gm.Arms {
